@@ -189,7 +189,15 @@ func (e *Exponent) UnmarshalBinary(data []byte) error {
 		return errors.New("can't unmarshal Exponent with no group")
 	}
 	group := e.group
+	if len(data) < 4 {
+		return errors.New("exponent: data too short")
+	}
 	size := binary.BigEndian.Uint32(data)
+	// every encoded coefficient takes more than 32 bytes of the input:
+	// never allocate more than the data could possibly hold
+	if uint64(size) > uint64(len(data)-4)/32 {
+		return errors.New("exponent: number of coefficients exceeds the size of the data")
+	}
 	e.coefficients = make([]curve.Point, int(size))
 	for i := 0; i < len(e.coefficients); i++ {
 		e.coefficients[i] = group.NewPoint()
